@@ -81,6 +81,9 @@ pub struct Interpreter<TStdlib: Stdlib, TStdIn: Input, TStdOut: Printer, TLpt1: 
     data_segment: DataSegment,
 
     def_seg: Option<usize>,
+
+    #[cfg(feature = "verif")]
+    verif: super::verif::VerifState,
 }
 
 impl<TStdlib: Stdlib, TStdIn: Input, TStdOut: Printer, TLpt1: Printer> InterpreterTrait
@@ -183,6 +186,8 @@ impl<TStdlib: Stdlib, TStdIn: Input, TStdOut: Printer, TLpt1: Printer> Interpret
             instructions,
             statement_addresses,
         } = instruction_generator_result;
+        #[cfg(feature = "verif")]
+        self.verif.begin(&statement_addresses);
         let mut i: usize = 0;
         let mut ctx: InterpretOneContext = InterpretOneContext {
             halt: false,
@@ -191,6 +196,10 @@ impl<TStdlib: Stdlib, TStdIn: Input, TStdOut: Printer, TLpt1: Printer> Interpret
             nearest_statement_finder: NearestStatementFinder::new(statement_addresses),
         };
         while i < instructions.len() && !ctx.halt {
+            #[cfg(feature = "verif")]
+            if self.verif_before_instruction(i) {
+                break;
+            }
             let instruction = &instructions[i].element;
             let pos = instructions[i].pos();
             match self.interpret_one(i, instruction, pos, &mut ctx) {
@@ -203,6 +212,8 @@ impl<TStdlib: Stdlib, TStdIn: Input, TStdOut: Printer, TLpt1: Printer> Interpret
                     }
                 },
                 Err(e) => {
+                    #[cfg(feature = "verif")]
+                    self.verif.errors.push(i);
                     self.last_error_code = Some(e.err().get_code());
                     match ctx.error_handler {
                         ErrorHandler::Address(handler_address) => {
@@ -274,6 +285,8 @@ impl<TStdlib: Stdlib, TStdIn: Input, TStdOut: Printer, TLpt1: Printer>
             print_state: PrintState::new(),
             data_segment: DataSegment::default(),
             def_seg: None,
+            #[cfg(feature = "verif")]
+            verif: Default::default(),
         }
     }
 
@@ -629,6 +642,43 @@ impl<TStdlib: Stdlib, TStdIn: Input, TStdOut: Printer, TLpt1: Printer>
             Some(a) => Ok(a),
             None => Err(RuntimeError::ResumeWithoutError),
         }
+    }
+}
+
+#[cfg(feature = "verif")]
+impl<TStdlib: Stdlib, TStdIn: Input, TStdOut: Printer, TLpt1: Printer>
+    Interpreter<TStdlib, TStdIn, TStdOut, TLpt1>
+{
+    pub fn verif_state_mut(&mut self) -> &mut super::verif::VerifState {
+        &mut self.verif
+    }
+
+    pub fn verif_depths(&self) -> super::verif::Depths {
+        let (states, blocks, argument_states) = self.context.verif_counts();
+        [
+            self.value_stack.len(),
+            self.register_stack.len(),
+            self.var_path_stack.len(),
+            self.by_ref_stack.len(),
+            self.return_address_stack.len(),
+            self.go_sub_address_stack.len(),
+            states,
+            self.stacktrace.len(),
+            blocks,
+            argument_states,
+        ]
+    }
+
+    fn verif_before_instruction(&mut self, pc: usize) -> bool {
+        let depths = self.verif_depths();
+        if super::verif::before_instruction(&mut self.verif, pc, depths) {
+            return true;
+        }
+        if super::verif::wants_dump(&self.verif, pc) {
+            let vars = self.context.verif_visible_variables();
+            self.verif.dumps.push(super::verif::Dump { pc, vars });
+        }
+        false
     }
 }
 
